@@ -66,6 +66,7 @@ fn apply(vm: &mut Option<Vm>, op: &str, args: &[&PNum]) -> (Out, String) {
     }
     let form = list(v);
     let text = format!("{:#}", form);
+    beat(&text);
     let m = vm.get_or_insert_with(Vm::new);
     let r = std::panic::catch_unwind(std::panic::AssertUnwindSafe(|| m.eval(&form)));
     let out = match r {
@@ -213,6 +214,9 @@ fn check_case(
 }
 
 pub fn run(ctx: &Ctx) -> i32 {
+    // an operation on the palette takes microseconds; one that is still running after a minute is building a
+    // number it should have refused
+    start_watchdog("C08", 60);
     let mut rep = Report::new("exploration");
     let gs_len = groups().len() as u64;
     let n_int = groups().iter().filter(|g| g.value.is_integer()).count() as u64;
@@ -322,12 +326,118 @@ pub fn run(ctx: &Ctx) -> i32 {
         Acc::merge,
         acc_zero,
     );
+    // every triple of the integer palette values (one representation each, the one the reader would produce) through
+    // the variadic + - *, and every quadruple of a 14-value sub-palette through *: a fold may treat its partial
+    // results differently from the two-operand case
+    fn int_groups() -> Vec<Group> {
+        groups().into_iter().filter(|g| g.value.is_integer()).map(|g| Group { value: g.value.clone(), reps: vec![g.reps[0].clone()] }).collect()
+    }
+    fn quad_groups() -> Vec<Group> {
+        int_groups()
+            .into_iter()
+            .filter(|g| {
+                let m = g.value.abs();
+                [0u32, 1, 31, 32, 62, 63].iter().any(|e| m == rat(pow2(*e))) || m == rat(big(3)) || m == rat(pow2(63) - big(1))
+            })
+            .collect()
+    }
+    let ni = int_groups().len() as u64;
+    let a_tri = par_fold(
+        ni * ni * ni,
+        64,
+        || (None::<Vm>, int_groups()),
+        |(vm, ints), acc, i| {
+            let (a, b, c) = (&ints[(i / ni / ni) as usize], &ints[((i / ni) % ni) as usize], &ints[(i % ni) as usize]);
+            check_case(acc, vm, "*", &[a, b, c], Some(&a.value * &b.value * &c.value), false);
+            check_case(acc, vm, "+", &[a, b, c], Some(&a.value + &b.value + &c.value), false);
+            check_case(acc, vm, "-", &[a, b, c], Some(&a.value - &b.value - &c.value), false);
+        },
+        Acc::merge,
+        acc_zero,
+    );
+    let nq = quad_groups().len() as u64;
+    let a_quad = par_fold(
+        nq * nq * nq * nq,
+        64,
+        || (None::<Vm>, quad_groups()),
+        |(vm, quad), acc, i| {
+            let g = |k: u32| &quad[((i / nq.pow(k)) % nq) as usize];
+            let (a, b, c, d) = (g(0), g(1), g(2), g(3));
+            check_case(acc, vm, "*", &[a, b, c, d], Some(&a.value * &b.value * &c.value * &d.value), false);
+        },
+        Acc::merge,
+        acc_zero,
+    );
+    // exponents beyond the 32-bit range: the powers of 0, 1 and -1 exist whatever the exponent; for every other base
+    // the true value cannot be held, so an error or an inexact answer is all that can be given - never an exact one
+    let mut a_huge = Acc::new();
+    {
+        let mut vm = None::<Vm>;
+        let huge: Vec<BigInt> = vec![
+            pow2(31) - big(1), pow2(31), pow2(32) - big(1), pow2(32), pow2(32) + big(1), pow2(32) + big(2), pow2(32) + big(10),
+            pow2(33), pow2(33) + big(1), pow2(62), pow2(63) - big(1), pow2(63), pow2(63) + big(1), pow2(64), pow2(64) + big(1), pow2(100) + big(1),
+        ];
+        let small_bases: Vec<BigRational> = vec![
+            rat(big(2)), rat(big(-2)), rat(big(3)), rat(big(-7)), rat(big(10)),
+            BigRational::new(big(1), big(2)), BigRational::new(big(-2), big(3)),
+        ];
+        for g in groups() {
+            let trivial = g.value.is_zero() || g.value.abs().is_one();
+            if !trivial && !small_bases.contains(&g.value) {
+                continue;
+            }
+            for e in &huge {
+                // a non-trivial base with an exponent below 2^32 really is computed (hundreds of megabytes): not here
+                if !trivial && *e < pow2(32) {
+                    continue;
+                }
+                let mut ereps = vec![PNum { n: Number::new_bigint(e.clone()), rep: "big" }];
+                if let Some(k) = e.to_i64() {
+                    ereps.insert(0, PNum { n: Number::Fixnum(k), rep: "fix" });
+                }
+                let eg = Group { value: rat(e.clone()), reps: ereps };
+                if trivial {
+                    let t = if g.value.is_zero() || g.value.is_one() || e.is_even() { g.value.abs() } else { g.value.clone() };
+                    check_case(&mut a_huge, &mut vm, "expt", &[&g, &eg], Some(t), false);
+                    continue;
+                }
+                for b in &g.reps {
+                    for x in &eg.reps {
+                        a_huge.evals += 1;
+                        let (o, text) = apply(&mut vm, "expt", &[b, x]);
+                        let bad = match &o {
+                            Out::Exact(_) => Some("wrong-exact-result"),
+                            Out::Panic(_) => Some("panic"),
+                            Out::Other(_) => Some("non-number"),
+                            Out::Inexact(_) | Out::Error(_) => None,
+                        };
+                        match bad {
+                            None => {
+                                a_huge.outcome("unrepresentable-power-refused-or-inexact");
+                                a_huge.nontrivial += 1;
+                            }
+                            Some(k) => {
+                                a_huge.outcome(k);
+                                a_huge.violation(Violation {
+                                    key: format!("expt/{},{}", palette::label(b), palette::label(x)),
+                                    class: Some(format!("expt/{},{}/huge-exponent", b.rep, x.rep)),
+                                    observed: k.to_string(),
+                                    detail: json!({"session": [text], "observed": show(&o), "true_value": "a number of more than 2^32 binary digits"}),
+                                });
+                            }
+                        }
+                    }
+                }
+            }
+        }
+    }
+    beat("");
     let mut acc = Acc::new();
-    for a in [a_bin, a_un, a_exp, a_ter] {
+    for a in [a_bin, a_un, a_exp, a_ter, a_tri, a_quad, a_huge] {
         acc = Acc::merge(acc, a);
     }
     rep.rule = format!(
-        "Every pair of the {} distinct exact palette values (0, +-1, +-2, +-2^31+-{{0,1,2}}, +-2^32, +-2^53+-1, +-2^62, +-2^63+-{{0,1,2}}, +-2^64, 2^127, 2^128+1, a 256-bit value, rationals p/q over {{1,2,3,2^31-1,2^31-2,46341}} and numerator -2^31) in every representation pair (fixnum, bignum, integer-valued rational32, rational32) through + - * / and (for the {} integers) quotient remainder modulo; unary abs floor ceiling truncate numerator denominator negate reciprocal; expt with exponents {:?} (exponent as fixnum, bignum and integer-valued rational); + and * on every triple of a {}-value sub-palette. Oracle: BigRational arithmetic; an exact result must equal the true value; an inexact result is accepted only if the true value is neither an integer nor a rational with |numerator|, denominator <= 2^31-1, and then |error| <= 2^-50 * max(|operands|, |true|); integer division always exact; all representation combinations of one value tuple must give the same exactness and value. Non-trivial = an evaluation whose result satisfied the oracle (not a zero-divisor case); cases are distinct (op, value, representation) tuples.",
+        "Every pair of the {} distinct exact palette values (0, +-1, +-2, +-2^31+-{{0,1,2}}, +-2^32, +-2^53+-1, +-2^62, +-2^63+-{{0,1,2}}, +-2^64, 2^127, 2^128+1, a 256-bit value, rationals p/q over {{1,2,3,2^31-1,2^31-2,46341}} and numerator -2^31) in every representation pair (fixnum, bignum, integer-valued rational32, rational32) through + - * / and (for the {} integers) quotient remainder modulo; unary abs floor ceiling truncate numerator denominator negate reciprocal; expt with exponents {:?} (exponent as fixnum, bignum and integer-valued rational); expt of 0, +-1 with 16 exponents from 2^31-1 to 2^100+1 (true value known) and of +-2, 3, -7, 10, 1/2, -2/3 with the 13 of them from 2^32 up (an exact answer is necessarily wrong; an error or an inexact answer is accepted); + and * on every triple of a {}-value sub-palette in every representation, + - * on every triple of the integer values and * on every quadruple of the powers of two, 3 and 2^63-1 with both signs (reader's representation). Oracle: BigRational arithmetic; an exact result must equal the true value; an inexact result is accepted only if the true value is neither an integer nor a rational with |numerator|, denominator <= 2^31-1, and then |error| <= 2^-50 * max(|operands|, |true|); integer division always exact; all representation combinations of one value tuple must give the same exactness and value. Non-trivial = an evaluation whose result satisfied the oracle (not a zero-divisor case); cases are distinct (op, value, representation) tuples.",
         gs_len, n_int, exps, ns
     );
     rep.extra("palette_values", json!(gs_len));
